@@ -353,10 +353,10 @@ type c09Anchors struct {
 	c           *kit.Ctx
 	handlerIf   *types.Interface
 	respWriter  types.Type
-	entries     []*kit.Func          // handler entry points of package api
-	bus         map[*kit.Func]bool   // api functions from which a bus operation is reachable
-	parseFns    []*kit.Func          // api functions calling jwt.Parse*
-	issuerFns   []*kit.Func          // api functions calling jwt.NewWithClaims
+	entries     []*kit.Func           // handler entry points of package api
+	bus         map[*kit.Func]bool    // api functions from which a bus operation is reachable
+	parseFns    []*kit.Func           // api functions calling jwt.Parse*
+	issuerFns   []*kit.Func           // api functions calling jwt.NewWithClaims
 	issuerObjs  map[types.Object]bool // issuer functions and the interface methods they implement
 	validFns    map[*kit.Func]bool    // request validators that reach a parse function
 	validObjs   map[types.Object]bool // … and the interface methods they implement
